@@ -15,7 +15,7 @@ CONSTANTS
   DerivedP = {"props", "bare", "none"}
   DerivedC = {"method"}
   DerivedM = {}
-  DerivedW = {"arrmax"}
+  DerivedW = {}
   MaxOverrides = 1
   MaxRoots = 2
 CONSTRAINT GBound
